@@ -6,8 +6,8 @@
 #include <omp.h>
 #include <sstream>
 
-#ifndef VF_KF2_EXCLUDE
-#define VF_KF2_EXCLUDE 0
+#ifndef VF_KF3_EXCLUDE
+#define VF_KF3_EXCLUDE 1
 #endif
 
 namespace vf {
@@ -315,10 +315,10 @@ CaseResult run_ef(const RunCtx &ctx, TapeReader &t, unsigned size_hint) {
     o.xthreads = ctx.x("xthreads");
     std::vector<K> keys = gen_keys<K>(t, o, meta);
 
-    // KNOWN FINDING KF-2 (excluded by construction, counted): first key 0 and last key max-1 make the rebased closing
+    // KNOWN FINDING KF-3 (excluded by construction, counted): 64-bit keys with first key 0 and last key max-1 make the rebased closing
     // segment key equal to the type's maximum; sd_vector's universe (last+1) wraps to 0 for 64-bit keys.
     bool excluded = false;
-    if (VF_KF2_EXCLUDE && !ctx.x("xkeys") && sizeof(K) == 8 && keys.front() == 0 && keys.back() == std::numeric_limits<K>::max() - 1) {
+    if (VF_KF3_EXCLUDE && !ctx.x("xkeys") && sizeof(K) == 8 && keys.front() == 0 && keys.back() == std::numeric_limits<K>::max() - 1) {
         for (auto &k: keys) k = std::max<K>(k, 1); // shift the first key(s) to 1: keeps the array sorted
         excluded = true;
     }
@@ -339,7 +339,7 @@ CaseResult run_ef(const RunCtx &ctx, TapeReader &t, unsigned size_hint) {
         return res;
     }
     common_labels(res, meta);
-    if (excluded) res.label("excluded_known_KF2_first0_last_maxm1");
+    if (excluded) res.label("excluded_known_KF3_u64_first0_last_maxm1");
     size_t segs = idx->segments_count();
     if (segs >= 4) res.label("ge3_segments");
     // Elias-Fano geometry: low-bit width decides which branch of pred() runs
